@@ -402,6 +402,25 @@ func runC10_15(c *core.Ctx) {
 		}
 		return true
 	})
+	// a counter may reach the return through a copy (count := n; return count, nil)
+	for changed := true; changed; {
+		changed = false
+		ast.Inspect(f.Decl.Body, func(n ast.Node) bool {
+			if as, ok := n.(*ast.AssignStmt); ok && len(as.Lhs) == len(as.Rhs) {
+				for k, l := range as.Lhs {
+					if lo := flow.ObjOf(f.Info, l); lo != nil && returned[lo] {
+						if ro := flow.ObjOf(f.Info, as.Rhs[k]); ro != nil && !returned[ro] {
+							if _, isVar := ro.(*types.Var); isVar {
+								returned[ro] = true
+								changed = true
+							}
+						}
+					}
+				}
+			}
+			return true
+		})
+	}
 	// a separate pass that totals all segments up front is as good as counting while storing
 	totalVars := map[types.Object]bool{}
 	ast.Inspect(f.Decl.Body, func(n ast.Node) bool {
